@@ -862,6 +862,11 @@ func (e *SpecEnv) evalCall(x *ECall) SV {
 			case "inblock":
 				// inblock(p, s): pointer p is the address of an element of the backing array of slice s (any index) (ext_crypto.go)
 				return e.inblockBuiltin(x)
+			case "lit":
+				// lit(b0, b1, ...): seq code of a byte-string literal (ext_c07.go)
+				if e.lookupSpecFn(id.Name) == nil {
+					return e.litBuiltin(x)
+				}
 			case "seqpart":
 				// seqpart(a, off, n): the byte string held by the window [off, off+n) of a byte array VALUE or slice (ext_crypto.go)
 				return e.seqpartBuiltin(x)
@@ -1462,6 +1467,10 @@ func (e *SpecEnv) applyRec(sf *SpecFn, n *SpecEnv, args []SV) SV {
 		fc.assumes["rec spec "+sf.Pkg+"."+sf.Name+": defining equation (syntactically well-founded on its last parameter)"] = true
 		if fa := recFrameAxioms(name, comps, hnames, fc.comps, hdecls, decls, argNames, body.t); fa != "" {
 			fc.ufAxioms[name] += "\n" + fa // ext_recframe.go: stores at allocation roots do not change the value
+		}
+		if fa := recElemFrameAxioms(name, comps, hnames, fc.comps, hdecls, decls, argNames, body.t); fa != "" {
+			fc.ufAxioms[name] += "\n" + fa // ext_c07.go: stores outside the element cells of a slice parameter do not change the value
+			fc.assumes["rec spec "+sf.Pkg+"."+sf.Name+": element frame theorem (stores outside the elements of its slice parameter), by induction on its last parameter"] = true
 		}
 		e.extRecLimitEnd(sf, name, strings.Join(append(hdecls, decls...), " "), call)
 		e.extRecFrame(sf, n, name, comps, fc.tc.sortOf(ret))
